@@ -147,8 +147,13 @@ def read_header(file_handle):
     version = file_handle.readline().decode()
     assert version.startswith('CPHD/1.0') or version.startswith('CPHD/1.1')
 
+    start = file_handle.tell()
     header = sarpy.io.phase_history.cphd1_elements.CPHD.CPHDHeader.from_file_object(file_handle)
-    return {k: getattr(header, k) for k in header._fields if getattr(header, k) is not None}
+    end = file_handle.tell()
+    # NB: the header object populates defaults, only report the fields which are present in the file
+    file_handle.seek(start, 0)
+    present = {line.split(b' := ')[0].decode() for line in file_handle.read(end - start).split(b'\n') if b' := ' in line}
+    return {k: getattr(header, k) for k in header._fields if k in present}
 
 
 def per_channel(method):
